@@ -297,6 +297,22 @@ func TestC05Seq(t *testing.T) {
 			}
 		}
 		maxInd := 0
+		// an UNCHECKED CREATE that names the largest existing file and carries a small size: refused by this server; a
+		// server that opens the file instead cuts it - and has to give the blocks back like any other truncation
+		acts["create_over_big"] = func(t *rapid.T) {
+			var big *MNode
+			for _, f := range x.M.LiveKind(nt.NF3REG) {
+				if big == nil || len(f.Blocks) > len(big.Blocks) {
+					big = f
+				}
+			}
+			if cut || big == nil {
+				t.Skip("no file")
+			}
+			if x.CreateWithSize(LiveRef(big.Parent), big.Name, uint64(pick(t, []int{0, 100, 4096, 9 * 4096}, "size")), false) != nil {
+				cut = true
+			}
+		}
 		// a directory that grows beyond its direct blocks (more than 256 names), is emptied again - directories do
 		// not shrink when names go - and is removed, or replaced by a RENAME of another empty directory over it
 		nbigdir := 0
